@@ -47,6 +47,11 @@ type sesWorld struct {
 	armed     map[string]int
 	winParked map[string][]chan struct{}
 	windows   bool // the scenario uses windows: application calls run on their own goroutine
+	// a pre-encoded frame is built once and handed to every Send that names it, the way a broadcast hands one
+	// options object to all its recipients
+	preOpts map[string]*packet.Options
+	// a CORS policy that names this one origin (every request of the scenario then carries it)
+	corsOrigin string
 }
 
 func (w *sesWorld) hook(point string, args ...any) {
@@ -239,9 +244,15 @@ func sesRun(t *testing.T, lines []string) []string {
 				if f[11] != "-" {
 					opts.SetHttpCompression(&types.HttpCompression{Threshold: atoi(f[11])})
 				}
+				corsOrigin := ""
+				if len(f) > 13 && strings.HasPrefix(f[13], "cors:") {
+					corsOrigin = string(unhx(f[13][5:]))
+					opts.SetCors(&types.Cors{Origin: []any{corsOrigin, "https://other.example"}, Credentials: true})
+				}
 				w = &sesWorld{world: newWorld(t, opts, nil), reacts: map[string][]string{}, reactCount: map[string]int{}, jOf: map[string]string{},
 					armed: map[string]int{}, winParked: map[string][]chan struct{}{}}
 				curSes = w
+				w.corsOrigin = corsOrigin
 				utils.SetVerifHook(w.hook)
 				w.srv.On("connection", func(a ...any) {
 					s := a[0].(engine.Socket)
@@ -323,6 +334,9 @@ func sesRun(t *testing.T, lines []string) []string {
 				if j, ok := w.jOf[f[2]]; ok {
 					u += "&j=" + url.QueryEscape(j)
 				}
+				if w.corsOrigin != "" {
+					hdr.Set("Origin", w.corsOrigin)
+				}
 				w.request("GET", u, hdr, nil, false, false)
 			case "post": // ses post <s> <t|b> <declared 0|1> <hex>
 				hdr := http.Header{"Content-Type": {"text/plain;charset=UTF-8"}}
@@ -394,10 +408,18 @@ func sesRun(t *testing.T, lines []string) []string {
 				}
 				opt := &packet.Options{Compress: f[5] == "1"}
 				if len(f) > 7 && f[7] != "-" {
-					if f[7][0] == 't' {
-						opt.WsPreEncodedFrame = types.NewStringBuffer(unhx(f[7][1:]))
+					if w.preOpts == nil {
+						w.preOpts = map[string]*packet.Options{}
+					}
+					if shared := w.preOpts[f[5]+f[7]]; shared != nil {
+						opt = shared
 					} else {
-						opt.WsPreEncodedFrame = types.NewBytesBuffer(unhx(f[7][1:]))
+						if f[7][0] == 't' {
+							opt.WsPreEncodedFrame = types.NewStringBuffer(unhx(f[7][1:]))
+						} else {
+							opt.WsPreEncodedFrame = types.NewBytesBuffer(unhx(f[7][1:]))
+						}
+						w.preOpts[f[5]+f[7]] = opt
 					}
 				}
 				var cb engine.SendCallback
@@ -504,6 +526,13 @@ func sesRun(t *testing.T, lines []string) []string {
 					}
 					if w.showCookie {
 						parts = append(parts, fmt.Sprintf("H:%d:%s", i, w.maskSids(hx([]byte(h.rec.Header().Get("Set-Cookie"))))))
+					}
+					if w.corsOrigin != "" && h.req != nil && h.req.Header.Get("Origin") == w.corsOrigin {
+						// the policy names the request's origin out of a list: the answer depends on the request
+						vary := strings.ToLower(strings.Join(h.rec.Header().Values("Vary"), ","))
+						if h.rec.Header().Get("Access-Control-Allow-Origin") != w.corsOrigin || !strings.Contains(vary, "origin") {
+							parts = append(parts, fmt.Sprintf("CORS!:%d:acao=%s:vary=%s", i, hx([]byte(h.rec.Header().Get("Access-Control-Allow-Origin"))), hx([]byte(vary))))
+						}
 					}
 					if h.writes > 1 {
 						parts = append(parts, fmt.Sprintf("R2:%d:%d", i, h.writes))
